@@ -1598,7 +1598,13 @@ private:
     }
     else
     {
-      _peerIndex.erase(pkey);
+      // The index maps a peer address to the ONE session that receives its datagrams.
+      // Another session to the same peer (connectViaListener) must not unmap it.
+      auto pit = _peerIndex.find(pkey);
+      if (pit != _peerIndex.end() && pit->second == sid)
+      {
+        _peerIndex.erase(pit);
+      }
     }
 
     _atomicStats.closed++;
